@@ -117,6 +117,10 @@ SRC = {
     "proj/css/user.css": "body {}\n",
     "proj/fav.png": "png\n",
     "proj/mj.js": "// mathjax config\n",
+    # a page sub-directory that is a symlink to a directory outside the project
+    "sibling/guide/index.md": "title: Shared guide\n\nshared [more](more.html)\n",
+    "sibling/guide/more.md": "title: More\n\nmore\n",
+    "sibling/guide/table.csv": "a,b\n",
     "sibling/unrelated.txt": "do not touch\n",
     "sibling/keep/deep.txt": "deep\n",
 }
@@ -153,6 +157,8 @@ OPTSETS = {
     "externalize": dict(externalize="true"),
     "graphs": dict(graph="true", graph_dir="{graph_dir}", parallel="0"),
     "search": dict(search="true"),
+    "force": dict(force="true"),
+    "force+pages": dict(force="true", page_dir="pages", media_dir="media"),
     "everything": dict(media_dir="media", css="css/user.css", favicon="fav.png", mathjax_config="mj.js", page_dir="pages", externalize="true",
                        graph="true", graph_dir="{graph_dir}", parallel="0"),
 }
@@ -163,6 +169,7 @@ def make_sandbox(placement):
     shutil.rmtree(root, ignore_errors=True)
     fordrun.write_tree(root, SRC)
     os.symlink("../sibling", root / "proj" / "link_out")
+    os.symlink("../../sibling/guide", root / "proj" / "pages" / "guide")
     (root / "elsewhere").mkdir()
     if PLACEMENTS[placement][2] == "srclink":
         (root / "proj" / "build").mkdir()
@@ -365,7 +372,7 @@ def main(tier, replay_path=None):
     t0 = time.time()
     core.use_repo()
     if tier == "quick":
-        combos = [(p, o) for p in PLACEMENTS for o in ("default",)] + [(p, "everything") for p in ("sibling", "via-symlink", "dotdot", "stale-output")] + \
+        combos = [(p, o) for p in PLACEMENTS for o in ("default",)] + [(p, o) for p in PLACEMENTS if PLACEMENTS[p][3] for o in ("force", "force+pages")] + [(p, "everything") for p in ("sibling", "via-symlink", "dotdot", "stale-output")] + \
                  [("sibling", o) for o in OPTSETS] + [(p, o) for p in PLACEMENTS if p.startswith("graphdir-") for o in ("graphs", "everything")]
         fault_combos = [("graphdir-is-src", "graphs"), ("sibling", "default"), ("via-symlink", "everything"), ("stale-output", "default"), ("inside-src", "assets"), ("dotdot", "pages"),
                         ("sibling", "project-copy-subdir")]
